@@ -425,7 +425,7 @@ theorem parse_print_aux3 (me : Char → Bool) : ∀ k e, sz3 e ≤ k → inFrag3
       obtain ⟨x, hx1, hx2⟩ := add_typeName (parseFuel (f' + 1)) ty hf.2 rest hr
       refine ⟨.expr (.is e' ty), ?_, rfl⟩
       show exprLevel (parseFuel (f' + 1)) _ = _
-      simp only [printE, List.append_assoc, List.cons_append, List.nil_append]
+      simp only [printE, List.append_assoc, List.cons_append]
       have hrel : relation (parseFuel (f' + 1)) (paren (needsParens e') (printE me e') ++ .ident "is" :: (nameTokens ty ++ rest)) =
           some (.expr (.is e' ty), rest) := by
         unfold relation
@@ -577,7 +577,7 @@ theorem sz3_le_length (me : Char → Bool) : ∀ k e, sz3 e ≤ k → sz3 e ≤ 
       simp only [sz3] at hk ⊢
       have h1 := ih a (by omega)
       have p1 := paren_length_ge (needsParens a) (printE me a)
-      simp only [printE, List.length_cons, List.length_append, List.length_nil]; omega
+      simp only [printE, List.length_cons, List.length_append]; omega
     case set es =>
       simp only [sz3] at hk ⊢
       have hl := sz3L_le me es (fun a ha => ih a (by have := sz3L_mem ha; omega))
